@@ -8,7 +8,7 @@ Open Scope N_scope.
 Inductive stdstream := StTcp | StUnix | StInvalid.
 Record settings := { starttls : bool; std_stream : option stdstream; has_timeout : bool }.
 Inductive tlsmode := Plain | StartTls | Ldaps.
-Inductive serr := EEmptyUnixPath | EPortInUnixPath | EMismatched | EUnknownScheme
+Inductive serr := EEmptyUnixPath | EPortInUnixPath | EMismatched | EUnknownScheme | ENoAuthority   (* repair F57 *)
   | EStartTlsUnix.   (* repair F27: StartTLS asked for on an ldapi URL - TLS cannot be layered over the Unix socket here, and a cleartext handle would be a silent downgrade *)
 Inductive plan :=
 | PPanic                                   (* panic!("unexpected None from url.host_str()") *)
@@ -18,11 +18,14 @@ Inductive plan :=
 | PUnix (path : list byte)
 | PPreUnix.
 
-Record fixes18 := { fix12 : bool; fix13 : bool; fix27 : bool }.
+Record fixes18 := { fix12 : bool; fix13 : bool; fix27 : bool; fix57 : bool }.
+(* fix57: "a missing host means localhost" (repair F12) is for a URL that has an authority part, however empty (ldap:///). A URL without
+   "//" after the scheme has no host part at all - what looks like one, ldap:host.example, is an opaque path - and is no LDAP URL
+   (RFC 4516: ldapurl = scheme COLON SLASH SLASH ...): an error, not a connection to localhost with the host the caller wrote dropped *)
 Definition contains_colon (s : list byte) : bool := existsb (fun c => beq c ":"%byte) s.
 Local Open Scope string_scope.
 
-Definition plan_of (fx : fixes18) (scheme : list byte) (host : option (list byte)) (port : option N) (st : settings) : plan :=
+Definition plan_of_auth (fx : fixes18) (auth : bool) (scheme : list byte) (host : option (list byte)) (port : option N) (st : settings) : plan :=
   if beqs scheme (s2b "ldapi") then
     if fix27 fx && starttls st then PErr EStartTlsUnix else
     match std_stream st with
@@ -44,6 +47,7 @@ Definition plan_of (fx : fixes18) (scheme : list byte) (host : option (list byte
           | Some _ => PErr EMismatched end
       | _ =>                                  (* second guard duplicates the first: falls to the panic arm *)
           if fix12 fx then
+            if fix57 fx && negb auth then PErr ENoAuthority else
             match std_stream st with
             | None => PTcp (s2b "localhost") p mode (has_timeout st)
             | Some StTcp => PPreTcp mode (has_timeout st)
@@ -54,8 +58,10 @@ Definition plan_of (fx : fixes18) (scheme : list byte) (host : option (list byte
     else if beqs scheme (s2b "ldaps") then go Ldaps 636
     else PErr EUnknownScheme.
 
-Definition as_is18 := {| fix12 := false; fix13 := false; fix27 := false |}.
-Definition repaired18 := {| fix12 := true; fix13 := true; fix27 := true |}.
+(* every URL of the theorems below has an authority part; the form without one: c18_no_authority *)
+Definition plan_of (fx : fixes18) := plan_of_auth fx true.
+Definition as_is18 := {| fix12 := false; fix13 := false; fix27 := false; fix57 := false |}.
+Definition repaired18 := {| fix12 := true; fix13 := true; fix27 := true; fix57 := true |}.
 Definition dflt := {| starttls := false; std_stream := None; has_timeout := false |}.
 
 (* the code as it is: *)
@@ -65,26 +71,26 @@ Proof. vm_compute. reflexivity. Qed.
 
 (* the repaired code: *)
 Theorem c18_total sch h p st : plan_of repaired18 sch h p st <> PPanic.
-Proof. unfold plan_of. cbn [fix12 fix13 fix27 repaired18]. repeat match goal with |- context [match ?x with _ => _ end] => destruct x end; try discriminate; intros H; discriminate H. Qed.
+Proof. unfold plan_of, plan_of_auth. cbn [fix12 fix13 fix27 fix57 repaired18 negb andb]. repeat match goal with |- context [match ?x with _ => _ end] => destruct x end; try discriminate; intros H; discriminate H. Qed.
 Theorem c18_ldap_default_port h hs st : std_stream st = None ->
   plan_of repaired18 (s2b "ldap") (Some (h :: hs)) None st = PTcp (h :: hs) 389 (if starttls st then StartTls else Plain) (has_timeout st).
-Proof. intros E. unfold plan_of. cbn. now rewrite E. Qed.
+Proof. intros E. unfold plan_of, plan_of_auth. cbn. now rewrite E. Qed.
 Theorem c18_ldaps_default_port h hs st : std_stream st = None ->
   plan_of repaired18 (s2b "ldaps") (Some (h :: hs)) None st = PTcp (h :: hs) 636 Ldaps (has_timeout st).
-Proof. intros E. unfold plan_of. cbn. now rewrite E. Qed.
+Proof. intros E. unfold plan_of, plan_of_auth. cbn. now rewrite E. Qed.
 Theorem c18_missing_host_localhost st p : std_stream st = None ->
   plan_of repaired18 (s2b "ldap") None p st = PTcp (s2b "localhost") (match p with Some x => x | None => 389 end) (if starttls st then StartTls else Plain) (has_timeout st)
   /\ plan_of repaired18 (s2b "ldap") (Some []) p st = PTcp (s2b "localhost") (match p with Some x => x | None => 389 end) (if starttls st then StartTls else Plain) (has_timeout st).
-Proof. intros E. unfold plan_of. cbn. rewrite E. now split. Qed.
+Proof. intros E. unfold plan_of, plan_of_auth. cbn. rewrite E. now split. Qed.
 Theorem c18_ldapi_port_rejected h hs n st : std_stream st = None -> starttls st = false -> plan_of repaired18 (s2b "ldapi") (Some (h :: hs)) (Some n) st = PErr EPortInUnixPath.
-Proof. intros E S. unfold plan_of. cbn. rewrite E, S. now rewrite orb_true_r. Qed.
+Proof. intros E S. unfold plan_of, plan_of_auth. cbn. rewrite E, S. now rewrite orb_true_r. Qed.
 Theorem c18_ldapi_empty st p : std_stream st = None -> starttls st = false -> plan_of repaired18 (s2b "ldapi") None p st = PErr EEmptyUnixPath.
-Proof. intros E S. unfold plan_of. cbn. now rewrite E, S. Qed.
+Proof. intros E S. unfold plan_of, plan_of_auth. cbn. now rewrite E, S. Qed.
 (* F27: StartTLS asked for together with an ldapi URL is refused - whatever else the URL and the settings say (also with a pre-opened socket);
    as found the setting was ignored and a cleartext connection returned *)
 Theorem c17_ldapi_starttls_rejected h p st : starttls st = true -> plan_of repaired18 (s2b "ldapi") h p st = PErr EStartTlsUnix.
-Proof. intros S. unfold plan_of. cbn. now rewrite S. Qed.
-Lemma c17_refuted_F27 : plan_of {| fix12 := true; fix13 := true; fix27 := false |} (s2b "ldapi") (Some (s2b "%2ftmp%2fsock")) None {| starttls := true; std_stream := None; has_timeout := false |} = PUnix (s2b "/tmp/sock").
+Proof. intros S. unfold plan_of, plan_of_auth. cbn. now rewrite S. Qed.
+Lemma c17_refuted_F27 : plan_of {| fix12 := true; fix13 := true; fix27 := false; fix57 := true |} (s2b "ldapi") (Some (s2b "%2ftmp%2fsock")) None {| starttls := true; std_stream := None; has_timeout := false |} = PUnix (s2b "/tmp/sock").
 Proof. vm_compute. reflexivity. Qed.
 Theorem c18_mismatched fx h p st :
   (std_stream st = Some StUnix \/ std_stream st = Some StInvalid -> exists e, plan_of fx (s2b "ldap") (Some (s2b "h")) p st = PErr e) /\
@@ -92,10 +98,19 @@ Theorem c18_mismatched fx h p st :
 Proof. split; [intros [E|E]|intros [E|E] S]; unfold plan_of; cbn; rewrite ?S, ?andb_false_r, E; try reflexivity; eexists; reflexivity. Qed.
 Theorem c18_unknown_scheme fx sch h p st : beqs sch (s2b "ldap") = false -> beqs sch (s2b "ldaps") = false -> beqs sch (s2b "ldapi") = false ->
   plan_of fx sch h p st = PErr EUnknownScheme.
-Proof. intros E1 E2 E3. unfold plan_of. now rewrite E3, E1, E2. Qed.
+Proof. intros E1 E2 E3. unfold plan_of, plan_of_auth. now rewrite E3, E1, E2. Qed.
 Theorem c18_ldapi_decodes_path h hs st : std_stream st = None -> starttls st = false -> contains_colon (h :: hs) = false ->
   plan_of repaired18 (s2b "ldapi") (Some (h :: hs)) None st = PUnix (pdec (h :: hs)).
-Proof. intros E S Hc. unfold plan_of. cbn [beqs]. change (beqs (s2b "ldapi") (s2b "ldapi")) with true. cbv iota. rewrite S, andb_false_r, E, Hc. reflexivity. Qed.
+Proof. intros E S Hc. unfold plan_of, plan_of_auth. cbn [beqs]. change (beqs (s2b "ldapi") (s2b "ldapi")) with true. cbv iota. rewrite S, andb_false_r, E, Hc. reflexivity. Qed.
+
+(* repair F57: ldap:host.example, ldap:, ldaps:x - no "//", no authority part: an error whatever else the URL and the settings say (a
+   host that is present, which the url crate never reports without an authority, would be used as before) *)
+Theorem c18_no_authority sch p st : beqs sch (s2b "ldap") = true \/ (beqs sch (s2b "ldap") = false /\ beqs sch (s2b "ldaps") = true) ->
+  beqs sch (s2b "ldapi") = false -> plan_of_auth repaired18 false sch None p st = PErr ENoAuthority.
+Proof. intros H Hi. unfold plan_of_auth. rewrite Hi. destruct H as [H|[H1 H2]]; [rewrite H|rewrite H1, H2]; reflexivity. Qed.
+Lemma c18_refuted_F57 : plan_of_auth {| fix12 := true; fix13 := true; fix27 := true; fix57 := false |} false (s2b "ldap") None None dflt = PTcp (s2b "localhost") 389 Plain false /\
+  plan_of_auth repaired18 false (s2b "ldap") None None dflt = PErr ENoAuthority /\ plan_of_auth repaired18 true (s2b "ldap") None None dflt = PTcp (s2b "localhost") 389 Plain false.
+Proof. repeat split. Qed.
 
 (* ---- the name matched against the server's certificate (new_tcp: `_hostname`); repair F43 ----
    url.host_str() keeps the brackets of an IPv6 literal - the socket address needs them, the certificate check must not see them. Whether a
